@@ -97,7 +97,14 @@ def _gen_item(rng, i):
     r = rng.random()
     n = rng.choice((0, 0, 1, 2, 3, 6))
     payload = [((1, 3, 6, 1, 4, 1, 4242, 2, j), gen.gen_value(rng)) for j in range(n)]
-    vbs = [(UPTIME, ("tt", rng.choice((0, 1, 4242, 2**32 - 1)))), (TRAPOID, ("oid", (1, 3, 6, 1, 4, 1, 4242, 0, i)))] + payload
+    if payload and rng.random() < 0.15:
+        # a PAYLOAD binding named like one of the two leading bindings (the sysUpTime.0 at
+        # which an event was first seen, a relayed notification's snmpTrapOID.0), or a
+        # TimeTicks payload: bindings like any other
+        j = rng.randrange(len(payload))
+        payload[j] = rng.choice(((UPTIME, ("tt", rng.choice((0, 77, 2**31, 2**32 - 1)))), (TRAPOID, ("oid", (1, 3, 6, 1, 4, 1, 4242, 0, 99))),
+                                 (payload[j][0], ("tt", rng.choice((0, 1, 2**31 - 1, 2**31, 2**32 - 1))))))
+    vbs = [(UPTIME, ("tt", rng.choice((0, 1, 4242, 2**31 - 1, 2**31, 2**32 - 1)))), (TRAPOID, ("oid", (1, 3, 6, 1, 4, 1, 4242, 0, i)))] + payload
     pdu = {"type": ber.PDU_TRAP, "request_id": 1000 + i, "error_status": 0, "error_index": 0, "varbinds": vbs}
     src = "127.0.0.%d" % rng.choice((1, 2, 3, 4))
     # a particular source port now and then: the ends of the range, the SNMP ports, a low one
@@ -146,12 +153,15 @@ def have_ipv6():
 
 CB_SHAPE = [0]
 SEEN_SOURCE = {}
+SEEN_BINDINGS = {}
+MUTATE = [False]
 
 
 def run_sequence(R, items, attempt=0, v6=False):
     """Returns (problems, stats).  problems: list of (kind, detail)."""
     events = []
     SEEN_SOURCE.clear()
+    SEEN_BINDINGS.clear()
     loop = asyncio.new_event_loop()
     eager = CB_SHAPE[0] % 4 == 3 and hasattr(asyncio, "eager_task_factory")
     if eager:
@@ -163,6 +173,17 @@ def run_sequence(R, items, attempt=0, v6=False):
     async def handler(trap, *extra):
         # what the callback SEES when it is called (the object may be touched later)
         SEEN_SOURCE[id(trap)] = getattr(trap, "source", None)
+        try:
+            SEEN_BINDINGS[id(trap)] = [(rig.oid_t(vb.oid), rig.to_tuple(vb.value)) for vb in trap.value.varbinds]
+            if MUTATE[0]:
+                # a callback that handles ITS trap's binding list the ordinary, mutating way
+                # (takes the two leading bindings off, keeps the rest): no business of any
+                # other delivery - what later callbacks see is judged at THEIR call time
+                lst = trap.value.varbinds
+                del lst[:2]
+                lst.reverse()
+        except Exception as exc:  # noqa: BLE001
+            SEEN_BINDINGS[id(trap)] = "unreadable: %r" % (exc,)
         events.append(("trap", trap))
 
     # the shapes a caller may give its callback (Callable[[Trap], Awaitable[None]])
@@ -288,7 +309,9 @@ def run_sequence(R, items, attempt=0, v6=False):
         if type(trap) is not Trap:
             problems.append(("bad-object", "callback got a %s, not a Trap" % type(trap).__name__))
             continue
-        got = [(rig.oid_t(vb.oid), rig.to_tuple(vb.value)) for vb in trap.value.varbinds]
+        got = SEEN_BINDINGS.get(id(trap))
+        if got is None or not MUTATE[0]:
+            got = [(rig.oid_t(vb.oid), rig.to_tuple(vb.value)) for vb in trap.value.varbinds]
         if got != it["vbs"]:
             problems.append(("bindings", "trap %d delivered with bindings %r, sent %r" % (rid, str(got)[:200], str(it["vbs"])[:200])))
         src = SEEN_SOURCE.get(id(trap), getattr(trap, "source", None))
@@ -297,6 +320,9 @@ def run_sequence(R, items, attempt=0, v6=False):
             problems.append(("source", "Trap.source is %r, datagram came from %s:%d" % (src, it["src"], it["sport"])))
         else:
             stats["source_ok"] = stats.get("source_ok", 0) + 1
+        if MUTATE[0]:
+            stats["judged_at_callback_time"] = stats.get("judged_at_callback_time", 0) + 1
+            continue
         try:
             info = TrapInfo(trap)
             want_vals = {rig.oid_s(o): rig.pythonized(v) for o, v in it["vbs"][2:]}
@@ -329,8 +355,14 @@ def classify(problems, stats):
 
 def run_items(R, items, label, v6=False):
     CB_SHAPE[0] = CB_SHAPE[0] + 1 if label != "replay" else CB_SHAPE[0]
+    if label == "mutating-callback":
+        MUTATE[0] = True
+    elif label != "replay":
+        MUTATE[0] = (CB_SHAPE[0] // 6) % 4 == 3
+    if MUTATE[0]:
+        R.mon["sequences_with_a_mutating_callback"] += 1
     R.mon["callback_shape_%d" % (CB_SHAPE[0] % 6)] += 1
-    case = {"cb_shape": CB_SHAPE[0] % 6, "v6": v6, "items": [{"cls": it["cls"], "src": it["src"], "port": it.get("port", 0), "data": "hex:" + it["data"].hex(), "i": it["i"], "vbs": rig.jsonable(it["vbs"])} for it in items]}
+    case = {"cb_shape": CB_SHAPE[0] % 6, "mutate": MUTATE[0], "v6": v6, "items": [{"cls": it["cls"], "src": it["src"], "port": it.get("port", 0), "data": "hex:" + it["data"].hex(), "i": it["i"], "vbs": rig.jsonable(it["vbs"])} for it in items]}
     problems, stats = run_sequence(R, items, v6=v6)
     timing = {"missing"}
     if problems and {k for k, _ in problems} <= timing:
@@ -352,6 +384,7 @@ def run_items(R, items, label, v6=False):
     R.mon["valid_after_invalid_delivered"] += stats.get("valid_after_invalid", 0)
     R.mon["source_checked"] += stats.get("source_ok", 0)
     R.mon["trapinfo_checked"] += stats.get("trapinfo_ok", 0)
+    R.mon["bindings_judged_at_callback_time"] += stats.get("judged_at_callback_time", 0)
 
 
 def run(R):
@@ -483,6 +516,17 @@ def fixed_sequences(R):
         items.append(it)
     run_items(R, items, "foreign-communities")
     R.mon["foreign_community_sequences"] += 1
+    # the same notification reported three times (a repeat, and a second device of the same
+    # type), payload bindings named like the leading ones, to a callback that takes its
+    # trap's binding list apart
+    vbs = [(UPTIME, ("tt", 2**31 + 5)), (TRAPOID, ("oid", (1, 3, 6, 1, 4, 1, 4242, 0, 1))), (UPTIME, ("tt", 12)), ((1, 3, 6, 1, 4, 1, 4242, 2, 1), ("tt", 2**32 - 1)),
+           (TRAPOID, ("oid", (1, 3, 6, 1, 4, 1, 4242, 0, 2))), ((1, 3, 6, 1, 4, 1, 4242, 2, 2), ("null", None))]
+    data = ber.enc_community_message(1, b"public", {"type": ber.PDU_TRAP, "request_id": 1000, "error_status": 0, "error_index": 0, "varbinds": vbs})
+    for label in ("repeats", "mutating-callback"):
+        items = [{"cls": "valid", "src": "127.0.0.%d" % a, "data": data, "vbs": vbs, "i": 0} for a in (1, 2, 1, 3)]
+        run_items(R, items, label)
+    MUTATE[0] = False
+    R.mon["repeated_notification_sequences"] += 2
 
 
 def replay(R, v):
@@ -503,4 +547,5 @@ def replay(R, v):
                 vbs.append((tuple(o), (kind, x)))
         items.append({"cls": it["cls"], "src": it["src"], "port": it.get("port", 0), "data": bytes.fromhex(it["data"][4:]), "i": it["i"], "vbs": vbs})
     CB_SHAPE[0] = v["case"].get("cb_shape", 0)
+    MUTATE[0] = bool(v["case"].get("mutate"))
     run_items(R, items, "replay", v6=bool(v["case"].get("v6")))
